@@ -29,12 +29,12 @@ def budget(tier):
 
 @st.composite
 def cases(draw):
-    big = draw(st.integers(0, 119)) == 0
+    big = draw(st.integers(0, 179)) == 0
     if big:
         s = {'hashing': {'name': 'blake2b', 'length': 32}, 'chunking': {},
              'encryption': draw(st.sampled_from([None, {'cipher': {'name': 'chacha20_poly1305'}, 'kdf': {'name': 'blake2b'}}]))}
         delta = draw(st.integers(-4, 4))
-        mult = draw(st.sampled_from([1, 2, 2, 3]))
+        mult = draw(st.sampled_from([1, 2, 2]))
         files = [{'path': 'dbig/fbig', 'content': [['r', 7, mult * BIG + delta]], 'mtime_ns': 1_600_000_000_123_456_789}]
         if draw(st.booleans()):
             files.append({'path': 'dbig/fsmall', 'content': [['r', 8, draw(st.integers(0, 9))]], 'mtime_ns': 1_500_000_000_000_000_001})
@@ -100,7 +100,7 @@ def cases(draw):
     case = {'settings': s, 'concurrent': draw(st.sampled_from([1, 1, 2, 3, 5, 8, 9, 16])),
             'backend': draw(st.sampled_from(['mem', 'amem', 'local'])), 'files': files, 'symlinks': symlinks,
             'args': args, 'relative_args': draw(st.booleans()), 'target': target, 'big': False}
-    if draw(st.integers(0, 11)) == 0:
+    if draw(st.integers(0, 17)) == 0:
         # a backend with upload latency and few connections: the bounded chunk queue behind the producer fills up
         case.update(backend='mem', concurrent=draw(st.sampled_from([1, 1, 2])), slow_ms=draw(st.sampled_from([15, 20])))
         case['files'] = files + [{'path': 'fslow', 'content': [['r', 9, draw(st.integers(14, 22)) * mx + 3]], 'mtime_ns': 10 ** 18 + 3}]
